@@ -87,7 +87,7 @@ def run(cx):
             cx.guarded(b, after[0].bb, f'(lt (self tol) (call *points::dist (field point {END}) (unwrap (call slice::last _))))', True) is not None
         cx.ob('GUARD', 'between_lengths:end-point', ok2, 'the end station is appended exactly when it is farther than tol from the last emitted point', where=after[0] if after else b.file)
         # last_index
-        li = [l for l, loc in enumerate(b.locals) if loc['n'] == 'last_index']
+        li = cx.locals_by_def(b, '(sub (call *Curve2::count (param self)) 2)')       # found by role (closed-curve value), not by name
         okli = False
         if li and loops:
             h = loops[0][0]
@@ -102,8 +102,10 @@ def run(cx):
         # TERM (special idiom): each back-edge path advances the index or clears the one-shot flag
         if loops:
             h, blocks, backs = loops[0]
-            wk = [l for l, loc in enumerate(b.locals) if loc['n'] == 'working']
-            wr = [l for l, loc in enumerate(b.locals) if loc['n'] == 'wrap']
+            # found by role, not by name: the walking station starts at the start station and is re-assigned in the loop; the one-shot flag is
+            # initialised from `end.length_along() < start.length_along()` and written in the loop
+            wk = [l for l in cx.locals_by_def(b, START) if any(d[0] in blocks for d in b.defs().get(l, []))]
+            wr = [l for l in cx.locals_by_def(b, WRAP) if any(d[0] in blocks for d in b.defs().get(l, []))]
             ok_t = bool(wk and wr) and len(loops) == 1
             kinds = set()
             if ok_t:
